@@ -941,7 +941,9 @@ class Spec:
     props_module = "Mhd.Props.C05"
     lean_targets = ["Mhd.Props.C05", "drv_sm"]
     required_theorems = ["Mhd.C05.protocol_accepts", "Mhd.C05.protocol_complete", "Mhd.C05.aware_iff_open_request",
-                         "Mhd.C05.closed_only_unaware", "Mhd.C05.upgraded_holds_no_response", "Mhd.C05.protocol_accepts_fixed", "Mhd.C05.tree_f9_fixed",
+                         "Mhd.C05.closed_only_unaware", "Mhd.C05.upgraded_holds_no_response", "Mhd.C05.idle_fuel_sufficient", "Mhd.C05.body_fuel_sufficient",
+                         "Mhd.C05.upload_accounting", "Mhd.C05.upload_complete_length", "Mhd.C05.early_response_discards_upload",
+                         "Mhd.C05.protocol_accepts_fixed", "Mhd.C05.tree_f9_fixed",
                          "Mhd.C05.tree_other_repairs", "Mhd.C05.protocol_accepts_tree", "Mhd.C05.witness_f9",
                          "Mhd.C05.witness_alloc_bypass", "Mhd.C05.witness_epoll_bypass", "Mhd.C05.witness_f14",
                          "Mhd.C05.witness_f14_double_completion"]
@@ -958,8 +960,11 @@ class Spec:
                    "the code); upgrade: non-TLS daemon, the upgraded socket itself is not used, MHD_UPGRADE_ACTION_CLOSE or daemon stop ends it",
                    "external polling modes (select, epoll); thread-per-connection shutdown path (mark_closed_ only) not modelled",
                    "the daemon applies the connection events of Mhd.ConnSM.Ev only (cleanup only after cleanup_connection / close_connection)",
-                   "completeness of the upload (all body bytes presented before the first final call) is checked by the oracle on the real "
-                   "log, not proved in Lean; contiguity / order / re-presentation of the declined suffix is proved",
+                   "upload completeness: proved in Lean for Content-Length framing (upload_accounting / upload_complete_length: taken + still to "
+                   "come = Content-Length, whole body before the final call and before COMPLETED_OK unless the upload was discarded by an early "
+                   "response or an error); for chunked framing the total is only known from the stream: contiguity, order, re-presentation of the "
+                   "declined suffix and 'nothing remains from BODY_RECEIVED on' are proved, equality with the bytes the client sent is checked by the "
+                   "oracle on the real log",
                    "replies of the application in 300-byte arenas and the position inside an over-long element where the arena is "
                    "exhausted are not generated (pool arithmetic is C08's model, not this one)"]
 
